@@ -97,6 +97,9 @@ def run(rep, tier, seed):
     # ---- impl -> spec on the repository's own programs, over opaque values (MechStepGen / Trace_C19g)
     from areas import c19g
     rep.cov["traces_validated_against_impl"] += c19g.run(rep, tier, seed)
+    # ---- the REPL command layer (MechRepl / MC_C19r): `:step`, `:step n`, `:step #i n`, `:clear`, queries, failing lines
+    from areas import c19r
+    rep.cov["traces_validated_against_impl"] += c19r.run(rep, tier, seed)
     rep.add_samples([{"stmts": [stmt(s) for s in c["prog"]], "s0": c["s0"], "s1": c["s1"], "s3": c["s3"], "noassign": c["noassign"]} for c in cases])
     rep.assumptions += ["TLC 1.8.0", "harness projection", "statement renderer in areas/c19.py",
                         "bare define-from-variable (y := x) is excluded from the family: its cell sharing is judged by C05"]
